@@ -256,6 +256,43 @@ func (c *Call) CLI(extraEnv []string, threads int) (Obs, engine.CLIResult) {
 	return c.cliObs(r, outfile), r
 }
 
+// CLIStdout runs the invocation without -o, i.e. with the documented default of writing to stdout
+// (and, for the commands that document it, reading their main input from stdin).
+func (c *Call) CLIStdout(threads int, viaStdin bool) Obs {
+	args, stdin, outfile, cleanup := c.cliArgs(threads)
+	defer cleanup()
+	if outfile == "" || c.PairDir {
+		r := engine.CLI(stdin, 30*time.Second, nil, args...)
+		return c.cliObs(r, outfile)
+	}
+	var kept []string
+	for i := 0; i < len(args); i++ {
+		if args[i] == "-o" && i+1 < len(args) && args[i+1] == outfile {
+			i++
+			continue
+		}
+		kept = append(kept, args[i])
+	}
+	if viaStdin {
+		flag := map[string]string{"toma": "-s", "samvariants": "-s", "topa": "-s", "snps": "-q", "list": "-q"}[c.Cmd]
+		if flag != "" {
+			var k2 []string
+			for i := 0; i < len(kept); i++ {
+				if kept[i] == flag && i+1 < len(kept) {
+					b, _ := os.ReadFile(kept[i+1])
+					stdin = string(b)
+					i++
+					continue
+				}
+				k2 = append(k2, kept[i])
+			}
+			kept = k2
+		}
+	}
+	r := engine.CLI(stdin, 30*time.Second, nil, kept...)
+	return c.cliObs(r, "")
+}
+
 func (c *Call) cliObs(r engine.CLIResult, outfile string) Obs {
 	o := Obs{Outcome: "returned"}
 	switch {
